@@ -76,6 +76,10 @@ def make_doc(style, tset="A"):
     if style == "variant":
         return Doc([Op("query", "Op", [Field("i", [TN(), Inline("T", [F(f, tset=tset) for f in fs] + [Field("keep")])])])]), "OpIOnT", {f: f for f in fs}, ["i"]
     gs = ["g%d" % i for i in range(4)]
+    if style == "only_these":
+        # nothing else is selected on the object: under `deny` an assignment that deprecates all four leaves an EMPTY struct,
+        # which still has to take a payload that contains them
+        return Doc([Op("query", "Op", [Field("t", [F(f, tset=tset) for f in fs])])]), "OpT", {f: f for f in fs}, ["t"]
     if style == "conditional":
         # the deprecated fields carry @include: the attribute / the omission must not depend on it
         def FC(f):
@@ -149,6 +153,9 @@ def run(tier):
             for style in ("direct", "fragment", "variant"):
                 for strat in ("warn", "deny"):
                     cases.append({"assign": assign, "fmt": fmt, "style": style, "strategy": strat, "shift": sum(assign) % 4, "tset": "B"})
+    for assign in itertools.product((0, 1, 2), repeat=4):
+        for strat in ("warn", "deny"):
+            cases.append({"assign": assign, "fmt": "sdl", "style": "only_these", "strategy": strat, "shift": sum(assign) % 4})
     for assign in itertools.product((0, 1, 2), repeat=4):
         for strat in ("warn", "deny", "allow"):
             cases.append({"assign": assign, "fmt": "sdl", "style": "conditional", "strategy": strat, "shift": sum(assign) % 4})
@@ -232,7 +239,7 @@ def run(tier):
                 elif da["kv"].get("note") != dep[0]:
                     rep.violation("note_differs_from_reason", dict(label, field=w), {"note": da["kv"].get("note"), "reason": dep[0]})
         keep = by_wire.get("keep")
-        if c["style"] != "interface" and (keep is None or dep_attr(keep) is not None):
+        if c["style"] not in ("interface", "only_these") and (keep is None or dep_attr(keep) is not None):
             rep.violation("current_field_touched", label, keep)
         # nothing else in the module may be marked
         marked = [(s, wire(f)) for s, f in all_field_attrs(r["items"]) if dep_attr(f) is not None]
@@ -243,7 +250,7 @@ def run(tier):
         if len(samples) < 2000:
             samples.append({k: label[k] for k in ("assignment", "format", "style", "strategy")})
         take = c["fmt"] == "sdl" and (strat == "deny" or (strat == "warn" and c["strategy"] is None)) and \
-            (tier == "thorough" or (sum(x * 3 ** i for i, x in enumerate(c["assign"])) % 4 == 0))
+            (tier == "thorough" or (sum(x * 3 ** i for i, x in enumerate(c["assign"])) % 4 == 0) or (c["style"] == "only_these" and 0 not in c["assign"]))
         if take:
             c["case"] = farm.add(Case(r["tokens"], [("op", "Op")], prelude="pub type Date = String;"))
     rb = resps[-1]
@@ -267,7 +274,7 @@ def run(tier):
         if not fc.compiles:
             rep.violation("does_not_compile", c["label"], [(e["code"], e["message"][:150]) for e in fc.errors[:2]])
             continue
-        inner = {"keep": 1}
+        inner = {"keep": 1} if c["style"] != "only_these" else {}
         for i in range(4):
             inner[c["wires"]["f%d" % i]] = sample_value(i, c.get("tset", "A"))
         if c["style"] in ("variant", "interface"):
